@@ -866,6 +866,20 @@ impl<'a> Engine<'a> {
                     format!("seal({}) panicked after [{}]: {}", a.label(), n.path_str(), p.msg),
                     n.replay_json(Some(a)),
                 );
+                // C16: a block that cannot be sealed because a built-in pool that has to exist from this height on stands at a zero
+                // reserve in the open state (emptied before it became built-in: seed C16-r13-2) is "a built-in pool without
+                // reserves" as well - there is no sealed block to look at, so the open state is
+                let mut builtins = vec![PoolKey::new(Denom::Mel, Denom::Sym), PoolKey::new(Denom::Mel, Denom::Erg)];
+                if n.model.rules().tip_902 {
+                    builtins.push(PoolKey::new(Denom::Erg, Denom::Sym));
+                }
+                for k in builtins {
+                    if let Some(ps) = n.model.pools.get(&k) {
+                        if ps.lefts == 0 || ps.rights == 0 {
+                            run.violation("C16", "builtin-pool-without-reserves-block-cannot-be-sealed".into(), format!("seal({}) panicked after [{}] and the built-in pool {:?} stands at {} : {} in the open state", a.label(), n.path_str(), k, ps.lefts, ps.rights), n.replay_json(Some(a)));
+                        }
+                    }
+                }
                 return StepOut::Pruned;
             }
             Ok(s) => s,
